@@ -478,7 +478,7 @@ func (option *Option) isFunc() bool {
 func (option *Option) call(value *string) error {
 	var retval []reflect.Value
 
-	if value == nil {
+	if value == nil || option.value.Type().NumIn() == 0 {
 		retval = option.value.Call(nil)
 	} else {
 		tp := option.value.Type().In(0)
